@@ -54,6 +54,10 @@ func init() {
 	// a valid document whose path item declares a body parameter with a $ref'd schema (shared by
 	// its operations) and operation-level parameters with $ref'd schemas
 	c10multi = append(c10multi,
+		// operations with several status-code responses of which only some break the rules about array
+		// items (an items pattern that does not compile, in a body and in a header): every response must
+		// be looked at, whichever the iteration over the status codes visits last
+		`{"swagger":"2.0","info":{"title":"t","version":"1"},"paths":{"/r":{"get":{"operationId":"r","responses":{"200":{"description":"ok","schema":{"type":"array","items":{"type":"string","pattern":"a(b"}}},"201":{"description":"created"},"404":{"description":"nf","schema":{"type":"array","items":{"type":"string","pattern":"^ok$"}}},"409":{"description":"c","headers":{"X-L":{"type":"array","items":{"type":"string","pattern":"[z-a]"}}}}}},"put":{"operationId":"u","responses":{"200":{"description":"ok"},"202":{"description":"acc","schema":{"type":"array","items":{"type":"string","pattern":"(("}}},"default":{"description":"d"}}}}}}`,
 		// an unresolvable reference NEXT TO findings of the later rules (duplicate operation ids, an
 		// undeclared path parameter, an array parameter without items, a rejected default): with
 		// continue-on-errors those rules run on the unexpanded document, and they must do so whatever the
